@@ -87,59 +87,46 @@ def rule_rank(chk, ip):
         ok = seq == ["Contract", "Expand", "Exact"] and set(seq) == set(vr)
         chk.ob("C16.rank/vector-order", ok, "worst_to_best = %s" % seq if ok else
                "VectorRank::worst_to_best is %s; must be a permutation of %s from Contract (worst) to Exact (best)" % (seq, vr), where(w2b))
-    # get_rank: None -> Exact
+    # find / get_rank evaluated over a finite model of the type registry (convmodel.py)
+    import convmodel as CM
     gr = chk.anchor("C16.anchor/get_rank", f.fn("get_rank", TY, self_ty="ImplicitConversion"), "ImplicitConversion::get_rank")
-    if gr:
-        none_num = none_vec = False
-        for m in F.exprs(gr["thir"], "Match"):
-            for arm in m["arms"]:
-                for alt in F.pat_alternatives(arm["pat"]):
-                    if F.pat_variant(alt) == ("Option", "None"):
-                        c = F.adt_ctor(F.tail(arm["body"]))
-                        if c and c[0] == "NumericRank":
-                            none_num = c[1] == "Exact"
-                        if c and c[0] == "VectorRank":
-                            none_vec = c[1] == "Exact"
-        chk.ob("C16.rank/no-cast-is-exact", none_num and none_vec,
-               "no numeric cast -> NumericRank::Exact, no dimension cast -> VectorRank::Exact" if none_num and none_vec else
-               "get_rank no longer ranks the absence of a cast as Exact (numeric=%s vector=%s)" % (none_num, none_vec), where(gr))
-    # scalar rank matrix inside ImplicitConversion::find
     find = chk.anchor("C16.anchor/ImplicitConversion::find", f.fn("find", TY, self_ty="ImplicitConversion"), "ImplicitConversion::find")
     scalars = f.variants("ir_types::ScalarType", "rssl_ir")
-    if find and scalars:
-        mm = None
-        for m in F.exprs(find["thir"], "Match"):
-            s = F.strip(m["scrut"])
-            if s.get("k") == "Tuple" and len(s["elems"]) == 2 and all(x.get("ty", "").endswith("ScalarType") for x in s["elems"]):
-                mm = m
-        if chk.anchor("C16.anchor/rank-matrix", mm, "match over (source_scalar, dest_scalar)", where(find)):
-            ids = [F.strip(x).get("id") for x in F.strip(mm["scrut"])["elems"]]
-            n = 0
-            for a in scalars:
-                for b in scalars:
-                    if a == b:
-                        continue
-                    n += 1
-                    try:
-                        r = ip.ev(mm, {ids[0]: I.Enum("ScalarType", a), ids[1]: I.Enum("ScalarType", b)})
-                        rv = r.variant if isinstance(r, I.Enum) else str(r)
-                    except I.Unknown as e:
-                        rv = "unreadable (%s)" % e
-                    ok = rv in REF_ORDER and rv != "Exact"
-                    chk.ob("C16.rank/matrix/%s-to-%s" % (a, b), ok, "%s -> %s: %s" % (a, b, rv) if ok else
-                           "conversion %s -> %s is ranked %s: a conversion between distinct scalar types must have a rank worse than Exact"
-                           % (a, b, rv), where(find, mm), sample={"from": a, "to": b, "rank": rv})
-            chk.floor("C16.floor/matrix", n, 56, "off-diagonal scalar pairs", where(find))
-            # identical scalars produce no primary cast: the matrix is guarded by source_scalar == dest_scalar -> None
-            guard = False
-            for n_ in F.exprs(find["thir"], "If"):
-                if any(x is mm for x in F.walk(n_.get("else", {}))):
-                    c = F.strip(n_["cond"])
-                    vids = {v.get("id") for v in F.exprs(c, "Var")}
-                    if set(ids) <= vids and F.adt_ctor(F.tail(n_["then"])) and F.adt_ctor(F.tail(n_["then"]))[1] == "None":
-                        guard = True
-            chk.ob("C16.rank/identical-no-cast", guard, "identical scalars need no primary cast" if guard else
-                   "the `source_scalar == dest_scalar -> None` guard around the rank matrix is gone", where(find))
+    if gr and find and scalars:
+        cv = CM.Conversions(f)
+        r = cv.find("Float32", "Rvalue", "Float32", "Rvalue")
+        rk = cv.rank(r[1]) if r[0] == "Ok" else r
+        chk.ob("C16.rank/no-cast-is-exact", rk == ("Exact", "Exact"),
+               "identical types: no cast, ranked (Exact, Exact)" if rk == ("Exact", "Exact") else
+               "a conversion between identical types is ranked %s, must be (Exact, Exact)" % (rk,), where(gr))
+        n = 0
+        for a in scalars:
+            for b_ in scalars:
+                if a == b_:
+                    continue
+                n += 1
+                r = cv.find(a, "Rvalue", b_, "Rvalue")
+                if r[0] == "Ok":
+                    rv = cv.parts(r[1])[2] or "Exact"
+                    rk = cv.rank(r[1])
+                    if rk[0] in ("aborts", "unreadable") or rk[0] != rv:
+                        rv = "%s (get_rank: %s)" % (rv, rk[0])
+                elif r[0] == "Err":
+                    rv = "refused"
+                else:
+                    rv = "%s (%s)" % r
+                ok = rv in REF_ORDER and rv != "Exact"
+                chk.ob("C16.rank/matrix/%s-to-%s" % (a, b_), ok, "%s -> %s: %s" % (a, b_, rv) if ok else
+                       "conversion %s -> %s is ranked %s: a conversion between distinct scalar types must exist and have a rank worse than Exact"
+                       % (a, b_, rv), where(find), sample={"from": a, "to": b_, "rank": rv})
+        chk.floor("C16.floor/matrix", n, 56, "off-diagonal scalar pairs", where(find))
+        same = []
+        for a in scalars:
+            r = cv.find(a, "Rvalue", a, "Rvalue")
+            if not (r[0] == "Ok" and cv.parts(r[1])[2] is None):
+                same.append(a)
+        chk.ob("C16.rank/matrix/diagonal", not same, "identical scalar types need no numeric cast" if not same else
+               "identical scalar types %s get a numeric cast (an exact match would be ranked worse than Exact)" % same, where(find))
 
 
 def rule_unique(chk, fft):
@@ -183,6 +170,8 @@ def rule_unique(chk, fft):
 
 
 def rule_sym(chk, fft):
+    if rule_tournament_eval(chk, fft):
+        return          # the tournament was read completely; the shape rules below are the fallback when it is not readable
     loops = F.for_loops(fft["thir"])
     # the tournament: two nested loops over the same vector, containing a call to NumericRank::compare
     outer = inner = None
@@ -355,67 +344,46 @@ def layer(kind, arg, scalar_id=7):
 
 
 def rule_dimension_total(chk, ip, prefix="C16.rank"):
-    """Every DimensionCast that ImplicitConversion::find can construct is ranked by get_rank without aborting."""
+    """Every conversion ImplicitConversion::find grants is ranked by get_rank without aborting: both functions are
+    evaluated over the model's scalar / vector / matrix shapes (two element types, both value categories)."""
+    import convmodel as CM
     f = chk.facts
     find = f.fn("find", TY, self_ty="ImplicitConversion")
     gr = f.fn("get_rank", TY, self_ty="ImplicitConversion")
     if not find or not gr:
         chk.ob(prefix + "/dimension-total", False, "anchor-missing: ImplicitConversion::find / get_rank", TY)
         return
-    dm = None
-    for m in F.exprs(find["thir"], "Match"):
-        st = F.strip(m["scrut"]).get("ty", "")
-        if st.endswith("TypeLayer") and any(short(a["adt"]) == "DimensionCast" for a in F.exprs(m, "Adt")):
-            if dm is None or len(list(F.walk(m))) > len(list(F.walk(dm))):
-                dm = m
-    rm = None
-    for m in F.exprs(gr["thir"], "Match"):
-        if "DimensionCast" in F.strip(m["scrut"]).get("ty", ""):
-            rm = m
-    if dm is None or rm is None:
-        chk.ob(prefix + "/dimension-total", False, "anchor-missing: the dimension-cast match of find / get_rank", where(find))
-        return
-    names = find_roles(find, dm)
-    need = ["source_l", "dest_l", "dest", "source_id", "dest_id"]
-    if not all(n in names for n in need):
-        chk.ob(prefix + "/dimension-total", False, "anchor-missing: inputs %s of the dimension-cast match" % [n for n in need if n not in names], where(find, dm))
-        return
-    rv = F.leftmost_var(rm["scrut"])
-    n = 0
+    cv = CM.Conversions(f)
+    shapes = ["%s", "%s1", "%s2", "%s3", "%s4", "%s2x2", "%s4x4", "%s3x4"]
     seen = {}
-    for sk, sa in dims():
-        for dk, da in dims():
-            for lval in (False, True):
-                env = {names["source_l"]: layer(sk, sa), names["dest_l"]: layer(dk, da),
-                       names["dest"]: I.Enum("ExpressionType", None, {"0": I.Enum("TypeId", None, {"0": 100}),
-                                                                       "1": I.Enum("ValueType", "Lvalue" if lval else "Rvalue")}),
-                       names["source_id"]: I.Enum("TypeId", None, {"0": 7 if sk == "Scalar" else 50}),
-                       names["dest_id"]: I.Enum("TypeId", None, {"0": 7 if dk == "Scalar" else 51})}
-                try:
-                    cast = ip.ev(dm, env)
-                except I.ReturnEx:
-                    continue      # conversion refused
-                except I.Unknown as e:
-                    chk.ob(prefix + "/dimension-total/readable", False, "dimension-cast table of find not readable: %s" % e, where(find, dm))
-                    return
-                if not isinstance(cast, I.Enum) or cast.variant != "Some":
-                    continue
-                dc = cast.fields["0"]
-                shape = "%s->%s" % (dim_name(dc.fields.get("0")), dim_name(dc.fields.get("1")))
-                if shape in seen:
-                    continue
-                n += 1
-                try:
-                    r = ip.ev(rm, {rv["id"]: cast}) if rv else None
-                    res = r.variant if isinstance(r, I.Enum) else str(r)
-                    ok = res in ("Exact", "Expand", "Contract")
-                except I.Unknown as e:
-                    res, ok = "aborts (%s)" % e, False
-                seen[shape] = res
-                chk.ob(prefix + "/dimension-total/%s" % shape.replace("(", "").replace(")", "").replace(", ", "x"), ok,
-                       "find builds DimensionCast %s, get_rank ranks it %s" % (shape, res) if ok else
-                       "ImplicitConversion::find accepts the dimension cast %s but get_rank has no arm for it: overload "
-                       "resolution panics (%s)" % (shape, res), where(gr, rm), sample={"cast": shape, "rank": res})
+    n = 0
+    for ea, eb in (("Float32", "Float32"), ("Int32", "Float32")):
+        for sa in shapes:
+            for sb in shapes:
+                for dvt in ("Rvalue", "Lvalue"):
+                    src, dst = sa % ea, sb % eb
+                    r = cv.find(src, "Lvalue", dst, dvt)
+                    if r[0] in ("unreadable", "aborts"):
+                        chk.ob(prefix + "/dimension-total/readable", False, "find(%s -> %s %s) is %s: %s" % (src, dst, dvt, r[0], r[1]), where(find))
+                        return
+                    if r[0] != "Ok":
+                        continue
+                    dc = cv.parts(r[1])[1]
+                    if dc is None:
+                        continue
+                    gen = lambda d: "Vector(n)" if d.startswith("Vector(") and d != "Vector(1)" else ("Matrix" if d.startswith("Matrix") else d)
+                    shape = "%s->%s" % (gen(dc[0]), gen(dc[1]))
+                    rk = cv.rank(r[1])
+                    ok = rk[0] not in ("aborts", "unreadable") and rk[1] in ("Exact", "Expand", "Contract")
+                    if shape in seen and (seen[shape] or not ok) and ok:
+                        continue
+                    if shape not in seen:
+                        n += 1
+                    seen[shape] = ok
+                    chk.ob(prefix + "/dimension-total/%s" % shape.replace("(", "").replace(")", "").replace(", ", "x"), ok,
+                           "find builds DimensionCast %s, get_rank ranks it %s" % (shape, rk[1]) if ok else
+                           "ImplicitConversion::find accepts the dimension cast %s (%s -> %s) but get_rank has no arm for it: overload "
+                           "resolution panics (%s)" % (shape, src, dst, rk[1] if len(rk) > 1 else rk), where(gr), sample={"cast": shape, "rank": str(rk)})
     chk.floor(prefix.replace(".rank", ".floor") + "/dimension-casts", n, 6, "distinct dimension-cast shapes constructed by find", where(find))
 
 
@@ -470,6 +438,104 @@ def dim_name(d):
     return "Matrix"
 
 
+def rule_tournament_eval(chk, fft):
+    """The numeric-rank tournament of find_function_type, evaluated as written (helpers inlined) on every ordered
+    candidate list of length 1..3 whose two argument conversions have ranks in {Exact, Promotion, Conversion}: the
+    survivors must be exactly the candidates that are not worse than any other candidate on any argument - a set that
+    does not depend on the order of declaration. Returns False when the loop cannot be read (shape rules then apply)."""
+    import itertools
+    f = chk.facts
+    comp = f.fn("compare", TY, self_ty="NumericRank")
+    if not comp:
+        return False
+
+    def reaches_compare(node):
+        seen = set()
+        stack = [node]
+        while stack:
+            n = stack.pop()
+            for c in F.exprs(n, "Call"):
+                cal = c.get("rfn") or c.get("fn")
+                if cal == comp["path"]:
+                    return True
+                cb = f.bodies.get(cal)
+                if cb is not None and cb.get("crate") == TY and cal not in seen and "thir" in cb:
+                    seen.add(cal)
+                    stack.append(cb["thir"])
+        return False
+    outer = None
+    for (p_, it_, body_, node_) in F.for_loops(fft["thir"]):
+        if body_ is not None and reaches_compare(body_):
+            if outer is None or len(list(F.walk(node_))) > len(list(F.walk(outer[3]))):
+                outer = (p_, it_, body_, node_)
+    if outer is None:
+        return False
+    p_, it_, body_, node_ = outer
+    src = F.leftmost_var(it_)
+    inner_nodes = [x for l in F.for_loops(body_) if l[2] is not None for x in F.walk(l[3])]
+    local = {i for i, n_, pth in F.pat_binds(p_)}
+    sinks = set()
+    for c in F.exprs(body_, "Call"):
+        if short(c.get("fn") or "") == "push" and c.get("args") and not any(c is x for x in inner_nodes):
+            v = F.leftmost_var(c["args"][0])
+            if v is not None and v["id"] not in local:
+                sinks.add(v["id"])
+    if src is None or len(sinks) != 1:
+        return False
+    sink = sinks.pop()
+    # state declared before the loop that the loop may use (`let mut culled = vec![false; casts.len()]`)
+    pre = []
+    for s in F.walk(fft["thir"]):
+        if s.get("k") == "LetStmt" and "init" in s and s["pat"].get("k") == "Bind" and (s.get("ln") or 0) <= (node_.get("ln") or 0) and s["pat"]["id"] not in (sink,):
+            used = any(v["id"] == s["pat"]["id"] for v in F.exprs(body_, "Var"))
+            if used and s["pat"]["id"] != src["id"]:
+                pre.append(s)
+    RANKS = ["Exact", "Promotion", "Conversion"]
+    ORD = {r: i for i, r in enumerate(REF_ORDER)}
+
+    def conv(rank):
+        prim = I.Enum("Option", "None") if rank == "Exact" else I.Enum("Option", "Some", {"0": I.Enum("PrimaryCast", None, {
+            "source": I.Enum("TypeId", None, {"0": 1}), "dest": I.Enum("TypeId", None, {"0": 2}), "rank": I.Enum("NumericRank", rank)})})
+        return I.Enum("ImplicitConversion", None, {"0": I.Opaque("source"), "1": I.Enum("Option", "None"), "2": I.Enum("Option", "None"), "3": prim, "4": I.Enum("Option", "None")})
+    ip = I.Interp(f, max_depth=8)
+    vecs = list(itertools.product(RANKS, repeat=2))
+    n = 0
+    bad = []
+    for k in (1, 2, 3):
+        for combo in itertools.product(vecs, repeat=k):
+            n += 1
+            casts = [(I.Enum("FunctionId", None, {"0": i}), [conv(r) for r in rv]) for i, rv in enumerate(combo)]
+            env = {src["id"]: casts, sink: []}
+            try:
+                for s in pre:
+                    v = ip.ev(s["init"], env, 0)
+                    ip.match_pat(s["pat"], v, env)
+                ip.ev(node_, env, 0)
+            except (I.Unknown, I.ReturnEx, I.BreakEx, I.ContinueEx) as e:
+                if n == 1:
+                    return False        # not readable at all
+                bad.append((combo, "evaluation stopped: %s" % e))
+                continue
+            got = []
+            for w in env[sink]:
+                w0 = w[0] if isinstance(w, tuple) else w
+                if isinstance(w0, I.Ref):
+                    w0 = w0.get()
+                got.append(w0.fields.get("0") if isinstance(w0, I.Enum) else w0)
+            want = [i for i, rv in enumerate(combo) if all(all(ORD[rv[a]] <= ORD[ov[a]] for a in range(2)) for j, ov in enumerate(combo) if j != i)]
+            if got != want:
+                bad.append((combo, "survivors %s, must be %s" % (got, want)))
+    ok = not bad
+    chk.ob("C16.sym/tournament", ok,
+           "%d ordered candidate lists: the survivors are exactly the candidates not worse than any other on any argument" % n if ok else
+           "the numeric-rank tournament is wrong for %d of %d candidate lists, e.g. argument ranks %s: %s - the chosen overload depends on the order of declaration or a dominated / ambiguous candidate survives"
+           % (len(bad), n, [list(x) for x in bad[0][0]], bad[0][1]), where(fft, node_), sample={"lists": n, "wrong": len(bad)})
+    for key, txt in (("compare-operands", "operand order"), ("only-worse-disqualifies", "only Worse disqualifies"), ("survivor", "the outer candidate survives"),
+                     ("skip-only-self", "self is the only skipped opponent"), ("skip-self", "no self comparison")):
+        chk.ob("C16.sym/" + key, ok, "decided by the evaluated tournament (%s)" % txt if ok else "see C16.sym/tournament", where(fft, node_), trivial=True)
+    return True
+
+
 def rule_candidates_once(chk):
     """The candidate set of a call is the list of Function symbols of the scope; the tournament never compares a
     candidate with itself, so an id listed twice beats every rival twice and the call is reported ambiguous, depending
@@ -510,6 +576,7 @@ def rule_candidates_once(chk):
     if chk.anchor("C16.anchor/insert_function_in_scope", ins, "Context::insert_function_in_scope"):
         conds = [x for x in F.walk(ins["thir"]) if isinstance(x, dict) and x.get("k") == "If"]
         pushes = [c for c in F.exprs(ins["thir"], "Call") if short(c.get("fn") or "") in ("push", "insert") and any(a.get("variant") == "Function" for a in F.exprs(c, "Adt"))]
-        ok = not conds and len(pushes) == 2
-        chk.ob("C16.candidates/insert-unconditional", ok, "one symbol added per call (occupied: push, vacant: insert)" if ok else
+        conds += [a_ for m_ in F.exprs(ins["thir"], "Match") for a_ in m_["arms"] if "guard" in a_]
+        ok = not conds and len(pushes) >= 1
+        chk.ob("C16.candidates/insert-unconditional", ok, "one symbol added per call, unconditionally" if ok else
                "insert_function_in_scope adds the symbol conditionally (%d condition(s), %d insertion(s)): whether an overload is listed depends on what was declared just before it" % (len(conds), len(pushes)), where(ins))
